@@ -838,10 +838,37 @@ def campaign_c18_measure():
     return scs
 
 
+def sc_c18_mtu_cross(name, seed, other_mtu):
+    """the MTU getter fails on an interface right after ANOTHER interface (different MTU) was served: the
+    documented fallback is 1500, whatever other interfaces report"""
+    rng = random.Random(seed)
+    s = new_script(mtu=1500, twins=True)
+    s.boot(3, PEER, mtu=other_mtu, fill=0x3C, **attrs_default())
+    d0 = discover(0, M1, gen=0x11, seq=1)
+    s.rx(1, d0)
+    for i in range(80):
+        src = bytes([2, 0x71, 0, 0, 0, i])
+        s.rx(1, probe(src, OWN, src, OWN))
+    s.rx(3, discover(0, M2, gen=5, seq=1))           # the other interface's MTU is the last one the port reported
+    s.fault(get=1 << 0)
+    s.rx(1, query(M1, OWN, seq=5))
+    s.rx(3, discover(0, M2, gen=5, seq=2))
+    s.rx(1, emit(M1, OWN, [(1, 0, OWN, PEER)] * 3, seq=6, declared=0xFFFF), fill=1)
+    s.rx(3, discover(0, M2, gen=5, seq=3))
+    s.rx(1, query_large(M1, OWN, 0x0E, 0, seq=7))
+    s.clear()
+    s.rx(1, reset(M2))
+    for f in characterisation(rng):
+        s.rx([1, 2], f)
+    return Scenario(name, s.lines)
+
+
 def campaign_c18(seed, tier, counts):
     """counts: name -> (allocations, transmits) of the target request in a fault-free run"""
     rng = random.Random(seed)
     scs = []
+    for om in (9000, 576, 1501):
+        scs.append(sc_c18_mtu_cross("c18-mtu-cross-%d" % om, rng.randrange(1 << 30), om))
     for wifi in (0, 1):
         for (nm, pre, tgt) in c18_corpus(wifi):
             na, ns = counts.get("c18-measure-%s-%d" % (nm, wifi), (3, 2))
